@@ -278,10 +278,16 @@ func (c *checkSchema) collectAllowedJsonTypes(node ischema.Node, ss map[string]i
 	}
 
 	for _, typeName := range typesConstraint.(*constraint.TypesList).Names() {
-		if _, ok := c.foundTypeNames[typeName]; ok {
-			panic(errs.ErrImpossibleToDetermineTheJsonTypeDueToRecursion.F(typeName))
+		// Unnamed types (the alternatives of an "or" rule) have generated names
+		// made of a heap address. They can be referred to only from the node that
+		// defines them, so every recursion passes through a user type, and that
+		// is the one to report.
+		if bytes.NewBytes(typeName).IsUserTypeName() {
+			if _, ok := c.foundTypeNames[typeName]; ok {
+				panic(errs.ErrImpossibleToDetermineTheJsonTypeDueToRecursion.F(typeName))
+			}
+			c.foundTypeNames[typeName] = struct{}{}
 		}
-		c.foundTypeNames[typeName] = struct{}{}
 		c.collectAllowedJsonTypes(getType(typeName, c.rootSchema, ss).RootNode(), ss) // can panic
 	}
 }
